@@ -18,6 +18,25 @@ def view_key(st):
 ALL_TRUE = [['X-Requested-With', 'XMLHttpRequest'], ['X-H', '1']]
 
 
+def wellformed(S):
+    """every statement refers only to routes / predicates / deriver options that some statement declares"""
+    routes = set(s['name'] for s in S if s['k'] == 'route')
+    vpreds = set(s['name'] for s in S if s['k'] == 'vpred')
+    rpreds = set(s['name'] for s in S if s['k'] == 'rpred')
+    derivs = set(s['name'] for s in S if s['k'] == 'deriver')
+    for s in S:
+        if s['k'] == 'view':
+            if s.get('route') and s['route'] not in routes:
+                return False
+            if (s.get('vp') is not None and 'vp' not in vpreds) or (s.get('vq') is not None and 'vq' not in vpreds):
+                return False
+            if (s.get('dopt') is not None and 'dv' not in derivs) or (s.get('dopt2') is not None and 'dw' not in derivs):
+                return False
+        if s['k'] == 'route' and s.get('rp') is not None and 'rp' not in rpreds:
+            return False
+    return True
+
+
 def gen_program(rng, stream):
     """stream: 'main' (no predicate-order ties), 'tie', 'pred2', 'deriv2'"""
     S = []
@@ -75,6 +94,9 @@ def gen_program(rng, stream):
         add(k='deriver', name='dv')
     if stream == 'deriv2':
         add(k='deriver', name='dw')
+    has_mapper = chance(0.3)
+    if has_mapper:
+        add(k='mapper')
     if chance(0.3):
         add(k='static', name='st1')
     for n in rng.sample(['ext1', 'ext2', 'ext3'], rng.choice([0, 0, 1, 2])):
@@ -137,6 +159,8 @@ def gen_program(rng, stream):
             st['ret'] = 'dict'
         elif r < 0.5 and (None in rnames or chance(0.1)):
             st['ret'] = 'dict'                      # relies on a default renderer
+        if 'ret' not in st and (chance(0.5) if has_mapper else chance(0.05)):
+            st['ret'] = 'mv'                        # written for the custom mapper's calling convention
         if chance(0.25):
             st['csrf'] = rng.choice([True, False])
         if (has_dv and chance(0.5)) or stream == 'deriv2':
@@ -302,7 +326,10 @@ def gen_case(rng, tier):
         # variant 0 stays the program without any shadow: the overridden twins must leave no trace at all
         variants = [variants[0]] + [insert_shadows(rng, v, shadows) for v in variants[1:]]
         probes += [['GET', '/shadow/r0', '', None, None], ['GET', '/shadow/r1', '', 'p1', None]]
-    return {'stream': stream, 'stmts': S, 'variants': variants, 'probes': probes}
+    case = {'stream': stream, 'stmts': S, 'variants': variants, 'probes': probes}
+    if not wellformed(S):
+        case['illformed'] = True        # deliberately refers to something undeclared: every variant must refuse it
+    return case
 
 
 def flatten(body):
